@@ -554,9 +554,9 @@ static void DecodeMac(Word Index) {
     Boolean OK;
 
     if (ChkArgCnt(2, 2)) {
-        Val = EvalStrIntExpression(&ArgStr[1], UInt4, &OK);
+        Val = EvalStrIntExpression(&ArgStr[1], Int4, &OK) & 0x0f;
         if (OK) {
-            BAsmCode[1] = EvalStrIntExpression(&ArgStr[2], UInt4, &OK);
+            BAsmCode[1] = EvalStrIntExpression(&ArgStr[2], Int4, &OK) & 0x0f;
             if (OK) {
                 BAsmCode[1] |= (Val << 4);
                 BAsmCode[0] = 0x7b | Index;
